@@ -1173,6 +1173,23 @@ def gen_ak_query(rng, lines):
     return key, host, addr, princs, ca
 
 
+def gen_same_key_lines(rng):
+    """2-3 lines carrying the same user key (or the same CA key), each with its own from= / principals= restriction and a
+    command that tells the lines apart; every order of broad and narrow restrictions occurs."""
+    key = rng.randrange(4)
+    ca = rng.random() < 0.3
+    restr = ['from="10.0.0.0/8"', 'from="192.168.0.0/16"', 'from="*.ex.com"', 'from="h,gw"', 'from="fe80::/10,2001:db8::/32"',
+             'from="!10.0.0.1,*"', 'from="172.16.0.9"', 'principals="alice"', 'principals="bob,root"', 'principals="carol"',
+             'from="10.1.2.0/24",principals="root"', 'no-pty', '']
+    out = []
+    for i, r in enumerate(rng.sample(restr, rng.randint(2, 3))):
+        parts = [p for p in (('cert-authority' if ca else ''), r, 'command="line%d"' % i, rng.choice(['', 'environment="N=%d"' % i])) if p]
+        rng.shuffle(parts)
+        o = ','.join(parts)
+        out.append({'text': o + ' ' + key_text(key), 'options': o, 'key': key, 'damage': None, 'tags': []})
+    return out
+
+
 def ak_kind(line):
     if 'case' in line['tags']:
         return 'ak_keyword_case'
@@ -1187,12 +1204,17 @@ def stage_authorized_keys(ctx):
     rng = ctx.rng
     nfiles = 4800 if ctx.tier == 'thorough' else 380
     cases, metas = [], []
-    st = {'accepted': 0, 'rejected_by_from': 0, 'rejected_by_principals': 0, 'errors': 0, 'oracle_cases': 0, 'damaged_ok': 0, 'multi': 0}
+    st = {'accepted': 0, 'rejected_by_from': 0, 'rejected_by_principals': 0, 'errors': 0, 'oracle_cases': 0, 'damaged_ok': 0, 'multi': 0,
+          'same_key_cases': 0, 'same_key_later_line': 0}
     for fi in range(nfiles):
         mode = rng.random()
-        if mode < 0.45:
+        same_key = False
+        if mode < 0.40:
             lines = [gen_ak_line(rng, gen_ossh_options)]              # one documented-grammar entry: oracle domain
             oracle = True
+        elif mode < 0.58:
+            lines = gen_same_key_lines(rng)                           # one key on 2-3 lines with different restrictions
+            oracle, same_key = False, True
         else:
             lines = [gen_ak_line(rng, rng.choice([gen_ossh_options, gen_free_options])) for _ in range(rng.randint(1, 4))]
             oracle = False
@@ -1213,6 +1235,23 @@ def stage_authorized_keys(ctx):
                 st['errors'] += 1
             elif g[0] == 'opts':
                 st['accepted'] += 1
+            if same_key:
+                # reference: the first line (in file order) whose restrictions all match wins, with its own options
+                exps = [ak_expected(ln, q) for ln in lines]
+                if any(e is None for e in exps):
+                    continue
+                exp = next((e for e in exps if e[0] == 'opts'), ('none',))
+                st['same_key_cases'] += 1
+                st['same_key_later_line'] += exp[0] == 'opts' and exps[0][0] != 'opts'
+                if not ak_compare(exp, g):
+                    want = 'no entry' if exp[0] == 'none' else {k: v for k, v in exp[1].items() if v}
+                    report(
+                        ctx, 'ak_line_order',
+                        f'authorized_keys {text!r}, validate(key {q[0]}, host={q[1]!r}, addr={q[2]!r}, principals={q[3]!r}, ca={q[4]}) gave '
+                        f'{"exception " + str(exc) if g is None else g!r}; the first line whose options all match gives {want!r} '
+                        f'(per-line verdicts: {[e[0] for e in exps]})',
+                        {'kind': 'ak_line_order', 'file': 'authorized_keys_lines', 'lines': lines, 'query': list(q)})
+                continue
             if oracle:
                 exp = ak_expected(lines[0], q)
                 if exp is None:
@@ -1283,7 +1322,8 @@ def stage_authorized_keys(ctx):
                         ty='tables * text * list (Z * text * text * option (list text) * bool * option (option (list (text * obs))))')
     if bad:
         ctx.broke('correspondence:authorized_keys', f'{len(bad)} of {len(cases)} files differ; first: {metas[bad[0]]!r}')
-    need = {'accepted': 100, 'rejected_by_from': 10, 'rejected_by_principals': 3, 'errors': 10, 'oracle_cases': 100, 'multi': 50}
+    need = {'accepted': 100, 'rejected_by_from': 10, 'rejected_by_principals': 3, 'errors': 10, 'oracle_cases': 100, 'multi': 50,
+            'same_key_cases': 50, 'same_key_later_line': 5}
     low = {k: st[k] for k, n in need.items() if st[k] < n}
     if low:
         ctx.broke('vacuity:authorized_keys', f'branches hit too rarely: {low} (need {need})')
@@ -1596,6 +1636,13 @@ def replay(rp):
         (et, ec, er), _fb = ref.kh_lookup(lines, host, addr, port)
         print('match_known_hosts ->', got if got is not None else 'exception ' + str(exc), '; rules -> ', (sorted(et), sorted(ec), sorted(er)))
         return 0 if got is not None and (set(got[0]), set(got[1]), set(got[2])) == (et, ec, er) else 1
+    if rp.get('file') == 'authorized_keys_lines':
+        q = tuple(rp['query'])
+        got, exc = impl_ak(''.join(ln['text'] + '\n' for ln in rp['lines']), [q])
+        exps = [ak_expected(ln, q) for ln in rp['lines']]
+        exp = next((e for e in exps if e[0] == 'opts'), ('none',))
+        print('validate ->', got[0] if got[0] is not None else 'exception ' + str(exc), '; first matching line ->', exp)
+        return 0 if ak_compare(exp, got[0]) else 1
     if rp.get('file') == 'authorized_keys' and kind == 'damaged_key':
         pos = rp['position']
         qs = [tuple(q) for q in rp['queries']]
